@@ -2,6 +2,7 @@
 import TgModel.Props.C01
 import TgModel.Props.C02
 import TgModel.Props.C06
+import TgModel.Props.C07
 import TgModel.Props.C10
 import TgModel.Props.C15
 import TgModel.Props.C16
